@@ -38,9 +38,10 @@ import numpy as np
 from hypothesis import strategies as st
 from hypothesis.stateful import initialize, invariant, precondition, rule
 
-from ..harness import Facet, RecordingMachine, Violation
+from ..harness import Facet, RecordingMachine, Violation, exception_from_cut
 from .c18_entries import CATALOGUE, FAMILIES, Ctx, eligible
-from .c18_world import ORIGINS, World, same
+from .c18_inventory import NOT_RUNNABLE, SKIP_MODULES, CallTracer, flag_report, inventory
+from .c18_world import ORIGINS, VARIANTS, World, detach, fingerprint, has_arrays, same
 
 RULE = ("histories of <= 10 calls of public analysis entry points (catalogue of %d, grouped in %d families) on one shared "
         "world: d in {2,3}, N 8..16, 2..3 frames, K 1..3 species, box origin in {zero, centred on the origin, bounds "
@@ -88,8 +89,13 @@ def _fail(msg):
     raise Violation(msg)
 
 
-def run_entry(w, name, p, out, objs, tag):
-    """One call of a catalogue entry in a fresh output directory (cwd during the call).  Returns (key, result)."""
+REJECTED = "rejected-input"
+
+
+def run_entry(w, name, p, out, objs, tag, note=None):
+    """One call of a catalogue entry in a fresh output directory (cwd during the call).  Returns (key, result).
+    In an off-domain world (w.tolerant) an exception raised inside PyMatterSim is a refusal of the input, not a
+    violation: the result is then the marker (REJECTED, exception type); invariant (1) is checked all the same."""
     fn = CATALOGUE[name]
     q = fn.P[p % len(fn.P)]
     out = bool(out and fn.has_out)
@@ -101,12 +107,83 @@ def run_entry(w, name, p, out, objs, tag):
         # 0/0 -> NaN in degenerate bins etc. is a value (compared as such), not an event: silence the warnings
         with warnings.catch_warnings(), np.errstate(all="ignore"):
             warnings.simplefilter("ignore")
-            res = fn(w, q, out, Ctx(objs))
+            try:
+                res = fn(w, q, out, Ctx(objs))
+            except Violation:
+                raise
+            except Exception as e:  # noqa: BLE001
+                if not (w.tolerant and exception_from_cut(e)):
+                    raise
+                res = (REJECTED, type(e).__name__)
+                if note:
+                    note(REJECTED)
+                    note(f"{REJECTED}:{name}")
     finally:
         os.chdir(old)
         shutil.rmtree(calldir, ignore_errors=True)
     w.check_pure(f"{tag} {name}({q}, out={out})")
     return key, res
+
+
+def rejected(res):
+    return isinstance(res, tuple) and len(res) == 2 and isinstance(res[0], str) and res[0] == REJECTED
+
+
+class History:
+    """The calls made on one world: invariants (2) and (7).
+    (2) a repeated (entry, params, out) call must return what the first one returned (compared with a detached copy taken
+        when the first call returned), whatever ran in between and whether or not analysis objects were shared;
+    (7) every array / DataFrame a call handed back to the caller must keep the bytes it had when the call returned, at
+        every later step, as long as the inputs were not rebuilt / overwritten by the harness."""
+
+    def __init__(self, w, note=None):
+        self.w = w
+        self.note = note or (lambda t: None)
+        self.objs = {}
+        self.keys = []     # key of every call, in order
+        self.store = {}    # key -> (detached first result, index)
+        self.watch = []    # (index, key, live result, detached copy, fingerprint of the copy)
+        self.repeat = self.interleaved = False
+
+    def check_watch(self, after):
+        for idx, key, live, frozen, fp in self.watch:
+            if fingerprint(live) == fp:
+                continue
+            m = same(frozen, live, "returned value")
+            if m:
+                _fail(f"after {after}: the value that call {idx + 1} {label(key)} RETURNED to the caller has been changed behind "
+                      f"the caller's back (it no longer holds what was returned / written to the output file): {m}")
+
+    def call(self, entry, p, out, reuse, tag=None):
+        idx = len(self.keys)
+        key, res = run_entry(self.w, entry, p, out, self.objs if reuse else None, tag or f"step {idx + 1}:", self.note)
+        self.keys.append(key)
+        self.check_watch(f"call {idx + 1} {label(key)}")
+        frozen = detach(res)
+        if has_arrays(res):
+            self.watch.append((idx, key, res, frozen, fingerprint(frozen)))
+            self.note("returned-arrays-watched")
+        if key in self.store:
+            first, first_idx = self.store[key]
+            m = same(first, frozen, "result")
+            if m:
+                between = [label(k) for k in self.keys[first_idx + 1:idx]]
+                _fail(f"repeated call {label(key)} (call {idx + 1}, first made as call {first_idx + 1}) returned a different "
+                      f"result: {m}; calls in between: {between}")
+            self.repeat = True
+            self.note("repeat")
+            if any(k != key for k in self.keys[first_idx + 1:idx]):
+                self.interleaved = True
+                self.note("repeat-interleaved")
+        else:
+            self.store[key] = (frozen, idx)
+        return key, frozen
+
+    def invalidate(self):
+        """The harness is about to rebuild / overwrite the inputs: kept analysis objects and returned values that may
+        legitimately alias the inputs are dropped (the store of first results is kept: VALUES must still reproduce)."""
+        self.objs.clear()
+        self.watch.clear()
 
 
 def mutate_and_restore(w, entry, p, out, seed2, r1, root2, tag):
@@ -148,15 +225,36 @@ def label(key):
     return f"{name}({CATALOGUE[name].P[p]}, out={out})"
 
 
+def _mix(k):
+    """Multiplicative hash: Hypothesis favours small and repeated integers; this spreads them over the catalogue."""
+    return ((int(k) * 2654435761) >> 8) & 0xFFFFFF
+
+
+def _pick(draw, seq, salt=0):
+    """Near-uniform choice (sampled_from / small integers concentrate on few elements at small case counts)."""
+    return seq[_mix(draw(st.integers(0, 2 ** 16)) + salt) % len(seq)]
+
+
+# ordinary worlds 80 %, unusual-but-accepted inputs 20 % (c18_world.VARIANTS)
+VARIANT_ST = st.integers(0, 5 * (len(VARIANTS) - 1) - 1).map(lambda k: VARIANTS[1 + k % (len(VARIANTS) - 1)] if k % 5 == 4 else "plain")
+K_ST = st.sampled_from([1, 2, 2, 2, 3, 3, 4, 5])
+
+
+def world_tags(kw):
+    return [f"d{kw['d']}", f"origin-{kw['origin']}", f"cell-{kw['cell']}", f"K{kw['K']}", f"T{kw['T']}",
+            f"N{'8-11' if kw['N'] < 12 else '12-16'}", f"world-{kw.get('variant', 'plain')}",
+            "world-ordinary" if kw.get("variant", "plain") == "plain" else "world-off-domain"]
+
+
 # ============================================================================= history facet
 
 WORLD_KW = dict(seed=st.integers(0, 2 ** 20), d=st.sampled_from([2, 3]), N=st.integers(8, 16), T=st.sampled_from([2, 3]),
-                K=st.sampled_from([1, 2, 2, 3]), origin=st.sampled_from(ORIGINS),
-                cell=st.sampled_from(["ortho", "ortho", "ortho", "tri"]),
+                K=K_ST, origin=st.sampled_from(ORIGINS),
+                cell=st.sampled_from(["ortho", "ortho", "ortho", "tri"]), variant=VARIANT_ST,
                 # families this history concentrates on (a session works with a few analyses, and order-dependent
                 # defects need the same objects to meet repeatedly); 0 = all families
                 focus=st.one_of(st.just(0), st.integers(1, 2 ** 20)))
-CALL_KW = dict(which=st.integers(0, 2 ** 16), p=st.integers(0, 5), out=st.booleans(), reuse=st.booleans(),
+CALL_KW = dict(which=st.integers(0, 2 ** 16), p=st.integers(0, 5), out=st.booleans(), reuse=st.sampled_from([True, True, False]),
                dup=st.booleans())
 
 
@@ -165,11 +263,9 @@ class PurityMachine(RecordingMachine):
         super().__init__()
         self.w = None
         self.w2 = None
+        self.h = None
         self.root = None
-        self.objs = {}
         self.calls = []     # (key, kwargs) in call order
-        self.store = {}     # key -> (first result, index of first call)
-        self.flags = {"repeat": False, "interleaved": False}
         self.last_result = None
 
     # ---- set-up
@@ -181,6 +277,7 @@ class PurityMachine(RecordingMachine):
     def do_init(self, focus=0, **kw):
         self.root = tempfile.mkdtemp(prefix="hist-", dir=os.getcwd())
         self.w = World(root=os.path.join(self.root, "w"), **kw)
+        self.h = History(self.w, self.tag)
         self.wkw = kw
         self.fam = {f: [n for n in _names(f) if eligible(CATALOGUE[n], self.w)] for f in FAMILIES}
         if not any(self.fam.values()):  # only possible with the C18_ONLY debugging filter
@@ -195,8 +292,7 @@ class PurityMachine(RecordingMachine):
             self.tag("focus-3-families")
         else:
             self.tag("focus-all")
-        for t in (f"d{kw['d']}", f"origin-{kw['origin']}", f"cell-{kw['cell']}", f"K{kw['K']}", f"T{kw['T']}",
-                  f"N{'8-11' if kw['N'] < 12 else '12-16'}"):
+        for t in world_tags(kw):
             self.tag(t)
 
     def teardown(self):
@@ -211,28 +307,14 @@ class PurityMachine(RecordingMachine):
         w = self.w
         if entry not in CATALOGUE or not eligible(CATALOGUE[entry], w):
             _fail(f"harness: entry {entry!r} not eligible in this world")  # cannot happen (rules resolve names)
-        key, res = run_entry(w, entry, p, out, self.objs if reuse else None, f"step {len(self.calls) + 1}:")
         idx = len(self.calls)
+        key, res = self.h.call(entry, p, out, reuse)
         self.calls.append((key, dict(entry=entry, p=p, out=out, reuse=reuse, dup=dup)))
         self.tag(entry)
         if key[2]:
             self.tag("with-output-file")
         if reuse:
             self.tag("object-reuse-allowed")
-        if key in self.store:
-            first, first_idx = self.store[key]
-            m = same(first, res, "result")
-            if m:
-                between = [label(k) for k, _ in self.calls[first_idx + 1:idx]]
-                _fail(f"repeated call {label(key)} (call {idx + 1}, first made as call {first_idx + 1}) returned a different "
-                      f"result: {m}; calls in between: {between}")
-            self.flags["repeat"] = True
-            self.tag("repeat")
-            if any(k != key for k, _ in self.calls[first_idx + 1:idx]):
-                self.flags["interleaved"] = True
-                self.tag("repeat-interleaved")
-        else:
-            self.store[key] = (res, idx)
         self.last_result = res
         if dup:
             if self.w2 is None:
@@ -245,7 +327,7 @@ class PurityMachine(RecordingMachine):
                 _fail(f"{label(key)} (call {idx + 1}) on the shared objects differs from the same call on a bit-identical deep "
                       f"copy of all inputs: {m}; earlier calls: {[label(k) for k, _ in self.calls[:idx]]}")
             self.tag("deep-copy-differential")
-        self.info["nontrivial"] = bool(len({k[0] for k, _ in self.calls}) >= 2 and self.flags["interleaved"])
+        self.info["nontrivial"] = bool(len({k[0] for k, _ in self.calls}) >= 2 and self.h.interleaved)
 
     # ---- same values in freshly allocated objects
     @precondition(lambda self: bool(self.calls))
@@ -258,8 +340,9 @@ class PurityMachine(RecordingMachine):
         """Every shared array is replaced by a value-equal, freshly allocated one (new Snapshots objects too); kept
         analysis objects are dropped.  Results of repeated (X, params) calls must still be bit-identical (the store of
         earlier results is kept)."""
+        self.h.check_watch("the steps so far")
+        self.h.invalidate()
         self.w.rebuild()
-        self.objs.clear()
         self.w.check_pure("rebuilding the shared objects (harness)")
         self.tag("rebuild-fresh-objects")
 
@@ -267,6 +350,7 @@ class PurityMachine(RecordingMachine):
     def do_mutres(self, entry, p, out, seed2):
         self.do_call(entry=entry, p=p, out=out, reuse=False, dup=False)
         r1 = self.last_result
+        self.h.invalidate()
         mutate_and_restore(self.w, entry, p, out, seed2, r1, os.path.join(self.root, f"other-{len(self.calls)}"),
                            lambda t: self.tag(t))
 
@@ -309,6 +393,8 @@ class PurityMachine(RecordingMachine):
             self.w.check_pure("the last step")
         if self.w2 is not None:
             self.w2.check_pure("the last step (deep copy)")
+        if self.h is not None:
+            self.h.check_watch("the last step")
 
     @invariant()
     def inv(self):
@@ -334,7 +420,7 @@ def _add_rules():
             r.__name__ = f"r_mut_{fam}"
             return r
         setattr(PurityMachine, f"r_mut_{fam}", mkmut(fam))
-    for k in range(3):
+    for k in range(4):
         def mkrep(k):
             @precondition(lambda self: bool(self.calls))
             @rule(idx=st.integers(0, 9), fresh=st.booleans())
@@ -357,6 +443,11 @@ def _add_rules():
 _add_rules()
 
 
+def _params(entry, p):
+    fn = CATALOGUE[entry]
+    return fn.P[p % len(fn.P)]
+
+
 def describe_machine(log):
     out = []
     for name, kw in log:
@@ -365,46 +456,39 @@ def describe_machine(log):
         elif name == "rebuild":
             out.append(("rebuild",))
         elif name == "mutres":
-            out.append(("mutate-and-restore", kw["entry"], CATALOGUE[kw["entry"]].P[kw["p"] % len(CATALOGUE[kw["entry"]].P)]))
+            out.append(("mutate-and-restore", kw["entry"], _params(kw["entry"], kw["p"])))
         else:
-            out.append((kw["entry"], CATALOGUE[kw["entry"]].P[kw["p"] % len(CATALOGUE[kw["entry"]].P)],
-                        {k: kw[k] for k in ("out", "reuse", "dup")}))
+            out.append((kw["entry"], _params(kw["entry"], kw["p"]), {k: kw[k] for k in ("out", "reuse", "dup")}))
     return out
 
 
 # ============================================================================= single-call facets
 
 
-def _mix(k):
-    """Multiplicative hash: Hypothesis favours small and repeated integers; this spreads them over the catalogue."""
-    return ((int(k) * 2654435761) >> 8) & 0xFFFFFF
-
-
-def _pick(draw, seq, salt=0):
-    """Near-uniform choice (sampled_from / small integers concentrate on few elements at small case counts)."""
-    return seq[_mix(draw(st.integers(0, 2 ** 16)) + salt) % len(seq)]
+def _world_for(draw, fn, fam):
+    seed, N, T = draw(st.integers(0, 2 ** 20)), draw(st.integers(8, 16)), draw(st.sampled_from([2, 3]))
+    K = draw(K_ST)
+    d = draw(st.sampled_from(list(fn.dims)))
+    cell = draw(st.sampled_from(["ortho", "ortho", "tri"])) if fn.tri else "ortho"
+    origin = draw(st.sampled_from(ORIGINS + (("centred", "sumzero") if fam == "voro" else ())))
+    return dict(seed=seed, d=d, N=N, T=T, K=K, origin=origin, cell=cell, variant=draw(VARIANT_ST))
 
 
 def single_st(fam):
     @st.composite
     def strat(draw):
-        seed, N, T = draw(st.integers(0, 2 ** 20)), draw(st.integers(8, 16)), draw(st.sampled_from([2, 3]))
-        K = draw(st.sampled_from([1, 2, 2, 3]))
-        salt = 7919 * seed + 31 * N + 5 * T + K
+        salt = draw(st.integers(0, 2 ** 20))
         name = _pick(draw, _names(fam) or FAMILIES[fam], salt)
         fn = CATALOGUE[name]
-        d = draw(st.sampled_from(list(fn.dims)))
-        cell = draw(st.sampled_from(["ortho", "ortho", "tri"])) if fn.tri else "ortho"
-        origin = draw(st.sampled_from(ORIGINS + (("centred", "sumzero") if fam == "voro" else ())))
+        world = _world_for(draw, fn, fam)
         # the call made in between: the same entry with other parameters, or another entry of the family (they share
         # analysis objects when `reuse` is drawn)
-        others = [n for n in FAMILIES[fam] if d in CATALOGUE[n].dims and (CATALOGUE[n].tri or cell == "ortho")]
+        others = [n for n in FAMILIES[fam] if world["d"] in CATALOGUE[n].dims and (CATALOGUE[n].tri or world["cell"] == "ortho")]
         name2 = _pick(draw, [name] + others, salt + 1)
         return {"entry": name, "p": _pick(draw, range(len(fn.P)), salt + 2), "entry2": name2,
                 "p2": _pick(draw, range(len(CATALOGUE[name2].P)), salt + 3),
                 "out": draw(st.booleans()), "reuse": draw(st.booleans()), "seed2": draw(st.integers(0, 2 ** 20)),
-                "rebuild": draw(st.booleans()),
-                "world": dict(seed=seed, d=d, N=N, T=T, K=K, origin=origin, cell=cell)}
+                "rebuild": draw(st.booleans()), "world": world}
     return strat()
 
 
@@ -414,22 +498,19 @@ def check_single(case):
     root = tempfile.mkdtemp(prefix="single-", dir=os.getcwd())
     try:
         w = World(root=os.path.join(root, "w"), **case["world"])
-        tags = [name, f"d{w.d}", f"origin-{w.origin}", f"cell-{w.cellkind}", f"K{w.K}"]
+        tags = [name] + world_tags(case["world"])
         if not eligible(fn, w):
             return {"nontrivial": False, "tags": tags + ["not-eligible"], "extra": {"not_eligible": 1}}
-        objs = {} if case["reuse"] else None
-        key, r1 = run_entry(w, name, case["p"], case["out"], objs, "first call:")
+        h = History(w, tags.append)
+        reuse = bool(case["reuse"])
+        key, r1 = h.call(name, case["p"], case["out"], reuse, "first call:")
         # something else in between (other parameters or another entry of the family), then the first call again
         key2 = (name2, case["p2"] % len(fn2.P), bool(case["out"] and fn2.has_out))
         between = key2 != key and eligible(fn2, w)
         if between:
-            _, rb = run_entry(w, name2, case["p2"], case["out"], objs, "call in between:")
+            _, rb = h.call(name2, case["p2"], case["out"], reuse, "call in between:")
             tags.append("other-params-in-between" if name2 == name else "other-entry-in-between")
-        _, r2 = run_entry(w, name, case["p"], case["out"], objs, "second call:")
-        m = same(r1, r2, "result")
-        if m:
-            _fail(f"{label(key)} called twice with the same inputs returned different results: {m}"
-                  + (f"; call in between: {label(key2)}" if between else ""))
+        h.call(name, case["p"], case["out"], reuse, "second call:")  # invariants (2) and (7) inside
         # deep copy of all inputs (same values, other object identities), calls in the opposite order
         w2 = World(root=os.path.join(root, "copy"), **case["world"])
         if w2.pristine != w.pristine:
@@ -445,50 +526,239 @@ def check_single(case):
         if m:
             _fail(f"{label(key)} on the shared objects differs from the same call on a bit-identical deep copy of all "
                   f"inputs: {m}")
+        h.check_watch("the calls on a deep copy")
         # same values in freshly allocated objects: the result must not change
         if case.get("rebuild"):
+            h.invalidate()
             w.rebuild()
             w.check_pure("rebuilding the shared objects (harness)")
-            _, r4 = run_entry(w, name, case["p"], case["out"], None, "call after re-allocating all inputs:")
-            m = same(r1, r4, "result")
-            if m:
-                _fail(f"{label(key)} differs after every input array was replaced by a value-equal, freshly allocated one: {m}")
+            h.call(name, case["p"], case["out"], False, "call after re-allocating all inputs:")
             tags.append("rebuild-fresh-objects")
         # other values in the same objects
         if "seed2" in case:
-            _, r5 = run_entry(w, name, case["p"], case["out"], None, "call before overwriting the inputs in place:")
-            m = same(r1, r5, "result")
-            if m:
-                _fail(f"{label(key)} called again with the same inputs returned different results: {m}")
+            _, r5 = h.call(name, case["p"], case["out"], False, "call before overwriting the inputs in place:")
+            h.invalidate()
             mutate_and_restore(w, name, case["p"], case["out"], case["seed2"], r5, os.path.join(root, "other"), tags.append)
         if key[2]:
             tags.append("with-output-file")
         if case["reuse"]:
             tags.append("object-reuse-allowed")
+        if rejected(r1):
+            return {"nontrivial": False, "tags": tags, "extra": {"rejected_input": 1}}
         return {"nontrivial": True, "tags": tags}
     finally:
         shutil.rmtree(root, ignore_errors=True)
 
 
 def describe_single(case):
-    fn = CATALOGUE[case["entry"]]
-    return {"entry": case["entry"], "params": fn.P[case["p"] % len(fn.P)], "between": case.get("entry2"), "out": case["out"],
+    return {"entry": case["entry"], "params": _params(case["entry"], case["p"]), "between": case.get("entry2"), "out": case["out"],
             "reuse": case["reuse"], "world": case["world"]}
 
 
-_SINGLE_N = {"pair": (120, 6000), "neigh": (80, 4000), "voro": (60, 1500), "boo": (160, 4000), "dyn": (100, 4000),
-             "vec": (120, 5000), "cg": (60, 3000), "order": (100, 4000), "hess": (40, 2000), "misc": (80, 4000)}
-_SINGLE_SH = {"pair": 4, "boo": 4, "voro": 2, "dyn": 2, "vec": 2}
+# ============================================================================= method chains on one live analysis object
+
+# families whose entries are methods of one analysis object that caches state between calls
+CHAIN_FAMILIES = [f for f in ("s2", "nematic", "boo", "pair", "dyn", "hess") if f in FAMILIES]
+
+
+@st.composite
+def chain_st(draw):
+    salt = draw(st.integers(0, 2 ** 20))
+    fam = _pick(draw, CHAIN_FAMILIES, salt)
+    first = _pick(draw, _names(fam) or FAMILIES[fam], salt + 1)
+    world = _world_for(draw, CATALOGUE[first], fam)
+    names = [n for n in FAMILIES[fam] if world["d"] in CATALOGUE[n].dims and (CATALOGUE[n].tri or world["cell"] == "ortho")]
+    steps = [(first, _pick(draw, range(len(CATALOGUE[first].P)), salt + 2), draw(st.booleans()))]
+    for k in range(draw(st.integers(3, 6))):
+        n = _pick(draw, names, salt + 10 + k)
+        steps.append((n, _pick(draw, range(len(CATALOGUE[n].P)), salt + 20 + k), draw(st.booleans())))
+    return {"family": fam, "world": world, "steps": steps, "again": [draw(st.integers(0, 6)) for _ in range(2)]}
+
+
+def check_chain(case):
+    """All calls of the case go through ONE set of live analysis objects (reuse on): a drawn sequence of methods of one
+    family, then two of the earlier calls once more.  Invariants (1), (2), (3), (7) after every call."""
+    root = tempfile.mkdtemp(prefix="chain-", dir=os.getcwd())
+    try:
+        w = World(root=os.path.join(root, "w"), **case["world"])
+        tags = [f"family-{case['family']}"] + world_tags(case["world"])
+        h = History(w, tags.append)
+        done = []
+        for name, p, out in case["steps"]:
+            if not eligible(CATALOGUE[name], w):
+                tags.append("not-eligible")
+                continue
+            key, _ = h.call(name, p, out, True)
+            done.append((name, p, out))
+            tags.append(name)
+        for k in case["again"]:
+            if done:
+                name, p, out = done[k % len(done)]
+                h.call(name, p, out, True, "repeat at the end of the chain:")
+        tags.append(f"live-objects-{min(len(h.objs), 4)}{'+' if len(h.objs) > 4 else ''}")
+        return {"nontrivial": bool(len({k for k in h.keys}) >= 2 and h.interleaved), "tags": tags}
+    finally:
+        shutil.rmtree(root, ignore_errors=True)
+
+
+def describe_chain(case):
+    return {"family": case["family"], "world": case["world"],
+            "steps": [(n, _params(n, p), out) for n, p, out in case["steps"]], "again": case["again"]}
+
+
+# ============================================================================= inventory / flag coverage / deterministic sweep
+
+def _sweep_world(root, **kw):
+    """The first world (seeds 0, 1, ...) in which Dynamics.sq4 is applicable with and without a condition."""
+    for seed in range(200):
+        w = World(root=root, seed=seed, **kw)
+        if w.sq4_ok and w.sq4_ok_cond:
+            return w
+        shutil.rmtree(root, ignore_errors=True)
+    raise RuntimeError(f"harness: no sweep world with a non-empty mobile subset for {kw}")
+
+
+# full = every (entry, params, output on/off); the others: every (entry, params) without output files
+SWEEP_WORLDS = [
+    ("full", dict(d=2, N=9, T=3, K=2, origin="arbitrary", cell="ortho", variant="plain")),
+    ("full", dict(d=3, N=9, T=3, K=3, origin="zero", cell="ortho", variant="plain")),
+    ("params", dict(d=2, N=8, T=2, K=1, origin="centred", cell="tri", variant="lab-shift")),
+    ("params", dict(d=3, N=8, T=2, K=2, origin="sumzero", cell="tri", variant="lab-gap")),
+    ("pair", dict(d=3, N=8, T=2, K=4, origin="zero", cell="ortho", variant="plain")),
+    ("pair", dict(d=2, N=8, T=2, K=5, origin="zero", cell="ortho", variant="plain")),
+    ("pair", dict(d=2, N=8, T=2, K=1, origin="zero", cell="ortho", variant="plain")),
+]
+
+
+def _sweep_calls(mode, w):
+    for name, fn in CATALOGUE.items():
+        if ONLY and name not in ONLY:
+            continue
+        if not eligible(fn, w) or (mode == "pair" and fn.fam != "pair"):
+            continue
+        for p in range(len(fn.P)):
+            for out in ((False, True) if (fn.has_out and mode == "full") else (False,)):
+                yield name, p, out
+
+
+def replay_sweep(case):
+    if "entry" not in case:
+        return
+    root = tempfile.mkdtemp(prefix="sweep-", dir=os.getcwd())
+    try:
+        w = World(root=os.path.join(root, "w"), **case["world"])
+        h = History(w)
+        for name, p, out in case.get("before", []) + [(case["entry"], case["p"], case["out"])]:
+            h.call(name, p, out, True)
+    finally:
+        shutil.rmtree(root, ignore_errors=True)
+
+
+def gen_sweep(tier):
+    """(a) every (entry, params, output on/off) of the catalogue once, in fixed small worlds (two ordinary ones, two with
+    unusual species labels, three for the 1-, 4- and 5-species methods), all through ONE set of live analysis objects per
+    world, with invariants (1), (3), (7) after every call;  (b) while that runs, a profiler hook records which public
+    callables of PyMatterSim are entered and with which flag values;  (c) the API inventory and the flag coverage are
+    reported, and a flag of a catalogued routine that no entry varies is raised as a HARNESS error."""
+    inv, broken = inventory()
+    tracer = CallTracer(inv)
+    root = tempfile.mkdtemp(prefix="sweep-", dir=os.getcwd())
+    try:
+        for k, (mode, kw) in enumerate(SWEEP_WORLDS):
+            with tracer:  # the harness constructs SingleSnapshot / Snapshots itself
+                w = _sweep_world(os.path.join(root, f"w{k}"), **kw)
+            h = History(w)
+            before = []
+            for name, p, out in _sweep_calls(mode, w):
+                case = {"world": dict(w.kw), "entry": name, "p": p, "out": out, "before": list(before)}
+                tracer.current = name
+                try:
+                    with tracer:
+                        _, res = h.call(name, p, out, True)
+                except Violation as v:
+                    v.case = case
+                    raise
+                except Exception as e:  # noqa: BLE001
+                    e.case = case
+                    raise
+                # only the calls that returned arrays can matter for later steps of a replay
+                if has_arrays(res):
+                    before.append((name, p, out))
+                yield {k2: v for k2, v in case.items() if k2 != "before"}, {
+                    "nontrivial": not rejected(res), "tags": ["sweep:" + name, f"sweep-world-{kw['variant']}"]
+                    + ([REJECTED] if rejected(res) else []), "extra": {"sweep_calls": 1}}
+            shutil.rmtree(w.root, ignore_errors=True)
+    finally:
+        shutil.rmtree(root, ignore_errors=True)
+
+    # ---- (c) inventory
+    covered_by = {}
+    for ename, quals in tracer.by_entry.items():
+        for q in quals:
+            covered_by.setdefault(q, []).append(ename)
+    for q in sorted(inv):
+        if q in tracer.direct:
+            tag, extra = "inventory: exercised directly", {"inventory_exercised": 1}
+        elif q in tracer.indirect:
+            tag = f"inventory: only reached through other routines: {q}"
+            extra = {"inventory_only_indirect": 1}
+        elif q in NOT_RUNNABLE:
+            tag, extra = f"inventory: NOT exercised: {q} -- {NOT_RUNNABLE[q]}", {"inventory_uncovered_with_reason": 1}
+        else:
+            tag = f"inventory: NOT exercised: {q} -- no catalogue entry (added to the library after the catalogue was written?)"
+            extra = {"inventory_uncovered_unexplained": 1}
+        extra["inventory_total"] = 1
+        yield {"callable": q, "entries": sorted(covered_by.get(q, []))[:6]}, {"nontrivial": q in tracer.direct, "tags": [tag], "extra": extra}
+    for mname, why in sorted({**SKIP_MODULES, **broken}.items()):
+        yield {"module": mname}, {"nontrivial": False, "tags": [f"inventory: module skipped: {mname} -- {why}"],
+                                  "extra": {"inventory_modules_skipped": 1}}
+
+    # ---- (c) flags
+    missing_all = []
+    for q, p, want, seen, missing, exempt in flag_report(inv, tracer):
+        tags = [f"flag {q.replace('PyMatterSim.', '')}({p}): {len(want) - len(missing) - len(exempt)}/{len(want)} values exercised"]
+        for r, why in exempt.items():
+            tags.append(f"flag-exempt {q.replace('PyMatterSim.', '')}({p}={r}) -- {why}")
+        yield {"flag": f"{q}({p})", "values": want, "seen": seen}, {
+            "nontrivial": not missing, "tags": tags,
+            "extra": {"flags_total": 1, "flags_all_values_exercised": int(not missing and not exempt), "flags_with_exemption": int(bool(exempt))}}
+        if missing:
+            missing_all.append(f"{q}({p}): value(s) {missing} never passed (seen: {seen})")
+    if missing_all and not ONLY:
+        raise RuntimeError("harness: flag parameters of catalogued routines that no entry varies over all documented values "
+                           "(add parameter sets to the entry in c18_entries.py or list the value in c18_inventory.FLAG_EXEMPT "
+                           "with a reason):\n  " + "\n  ".join(missing_all))
+
+
+def describe_sweep(case):
+    return case
+
+
+# ============================================================================= facets
+
+_SINGLE_N = {"pair": (120, 6000), "neigh": (60, 4000), "voro": (60, 1500), "boo": (140, 4000), "dyn": (90, 4000),
+             "vec": (100, 5000), "cg": (50, 3000), "order": (50, 3000), "s2": (70, 3000), "nematic": (60, 3000),
+             "hess": (50, 2000), "misc": (60, 4000), "utils": (60, 3000), "reader": (40, 2000)}
+_SINGLE_SH = {"pair": 4, "boo": 4, "voro": 2, "dyn": 2, "vec": 2, "s2": 2}
 
 FACETS = [
     Facet("machine", machine=PurityMachine, quick=180, thorough=6000, steps=10, describe=describe_machine, shards_quick=6,
           rule="call histories on one shared world (steps: call / repeat / vary parameters / rebuild inputs as fresh objects / "
                "mutate-and-restore); non-trivial = >= 2 different entry points and >= 1 repeated "
                "(entry, params, out) call with another call in between"),
+    Facet("chains", chain_st(), check_chain, quick=160, thorough=6000, describe=describe_chain, shards_quick=4,
+          rule="4-7 drawn methods of one family (" + ", ".join(CHAIN_FAMILIES) + ") on ONE set of live analysis objects, then two "
+               "of the earlier calls again; non-trivial = >= 2 different calls and a repeated call with another one in between"),
+    Facet("flag_coverage", check=gen_sweep, exhaustive=True, describe=describe_sweep,
+          rule="deterministic sweep: every (entry, parameter set, output on/off) once through shared live objects in fixed "
+               "worlds; API inventory by introspection with measured coverage; every bool / Enum / documented-choice keyword "
+               "of every directly exercised callable must have taken all its values (else HARNESS error)"),
 ] + [
-    Facet(f"single_{fam}", single_st(fam), check_single, quick=_SINGLE_N[fam][0], thorough=_SINGLE_N[fam][1],
+    Facet(f"single_{fam}", single_st(fam), check_single, quick=_SINGLE_N.get(fam, (60, 3000))[0],
+          thorough=_SINGLE_N.get(fam, (60, 3000))[1],
           describe=describe_single, shards_quick=_SINGLE_SH.get(fam, 1),
           rule=f"one entry of family '{fam}' ({', '.join(FAMILIES[fam])}): call / purity / another call of the family / call again / "
                f"both calls on a deep copy in the opposite order; non-trivial = the entry is applicable to the drawn world")
     for fam in FAMILIES
 ]
+FACETS[2].replay = replay_sweep
